@@ -916,6 +916,9 @@ func runC18(c *Ctx) int {
 		foldChild(run, o, c18RaceFilter)
 	}
 	c18Resolver(c, run)
+	c18CLI(c, run)
+	run.Floor("cli_race_attacks", int64(c.Pick(3, 6)))
+	run.Floor("cli_race_hits_ok", 500)
 	run.Floor("dns_dial_calls", int64(c.Pick(40000, 2000000)))
 	run.Floor("address_coverage_windows_checked", int64(c.Pick(100, 5000)))
 	run.Floor("connect_to_histories", int64(c.Pick(200, 7000)))
